@@ -1,8 +1,11 @@
 package pluginc06
 
 import (
+	"context"
 	"fmt"
 	"strings"
+
+	metav1 "k8s.io/apimachinery/pkg/apis/meta/v1"
 
 	corev1 "k8s.io/api/core/v1"
 	"tkestack.io/galaxy/pkg/api/galaxy/constant"
@@ -28,6 +31,8 @@ const (
 	SigNotLowest = "bound-ip-not-lowest-held"
 	// suffix of every signature when a configuration reload went through earlier in the history
 	SufAfterReload = ":after-reload"
+	// … when an earlier operation of the history ran with an injected fault
+	SufAfterFault = ":after-fault"
 )
 
 type filterObs struct {
@@ -50,6 +55,9 @@ type monState struct {
 	// a configuration reload went through earlier in this history: violations are tagged `:after-reload` (the property
 	// is judged against the configuration NOW in force, w.Pools)
 	reloaded bool
+	// an operation earlier in this history ran with an injected apiserver / provider fault: violations are tagged
+	// `:after-fault` (the state was reached through a fault; the judged filter -> bind themselves are fault-free)
+	faulted bool
 	// observed `first` choices that are not the lowest address of the key (admissibility refinement choiceIsMin of
 	// Galaxy/Model/PluginC06.lean): reported as correspondence disagreements
 	notMin []string
@@ -171,6 +179,22 @@ func anyFreeRoutable(pools []plugin.Pool, free map[uint32]bool, nodeIP uint32) b
 	return false
 }
 
+// storeHoldsFreeAddress: some FloatingIP object of the store names an address the IPAM memory lists as unallocated
+// (memory and store disagree - the state C05 excludes); used only to name the class of a failed bind.
+func storeHoldsFreeAddress(w *plugin.World) bool {
+	fl, err := w.Galaxy.GalaxyV1alpha1().FloatingIPs().List(context.TODO(), metav1.ListOptions{})
+	if err != nil {
+		return false
+	}
+	free := freeSet(w.IPAMDump())
+	for _, o := range fl.Items {
+		if ip, ok := plugin.ParseIPv4(o.Name); ok && free[ip] {
+			return true
+		}
+	}
+	return false
+}
+
 func resClass(res string) string {
 	if strings.HasPrefix(res, "ok") {
 		return "ok"
@@ -187,17 +211,31 @@ func Monitor(w *plugin.World, step int) (out []hx.Violation) {
 		st = &monState{stats: map[string]int{}}
 		w.Mon["c06"] = st
 	}
+	f := strings.Fields(w.LastOp.Line)
 	defer func() {
 		st.prev = w.IPAMDump()
-		if st.reloaded {
-			for i := range out {
-				if !strings.HasSuffix(out[i].Signature, SufAfterReload) {
-					out[i].Signature += SufAfterReload
-				}
+		for i := range out {
+			if st.reloaded && !strings.Contains(out[i].Signature, SufAfterReload) {
+				out[i].Signature += SufAfterReload
+			}
+			if st.faulted && !strings.Contains(out[i].Signature, SufAfterFault) {
+				out[i].Signature += SufAfterFault
+			}
+		}
+		// remember faults of THIS op for the following ones
+		if n := len(f); n >= 3 {
+			switch w.LastOp.Kind {
+			case "filter":
+				st.faulted = st.faulted || (n == 7 && f[6] != "0")
+			case "bind":
+				st.faulted = st.faulted || (n >= 9 && (f[7] != "0" || f[8] != "0"))
+			case "deliver":
+				st.faulted = st.faulted || (n == 4 && (f[2] != "0" || f[3] != "0"))
+			case "reload":
+				st.faulted = st.faulted || (n == 3 && f[2] != "0")
 			}
 		}
 	}()
-	f := strings.Fields(w.LastOp.Line)
 	res := w.LastOp.Result
 	pools := w.Pools
 	switch {
@@ -381,6 +419,9 @@ func Monitor(w *plugin.World, step int) (out []hx.Violation) {
 			st.stats["monitor:bind-after-approval-checked:"+cls]++
 			// "if filter returns a node and nothing else changes, bind on that node succeeds (or waits for the delete event)"
 			if cls != "ok" && cls != "waiting-for-delete" {
+				if cls == "other" && storeHoldsFreeAddress(w) {
+					cls = "already-exists" // the store owns an address the memory cache lists as unallocated
+				}
 				out = append(out, hx.Violation{Signature: SigBindFailed + cls, What: fmt.Sprintf(
 					"filter approved node %s for pod %s/%s, the immediately following bind on it answered %q", node, f[1], f[2], res)})
 			}
